@@ -133,7 +133,7 @@ def strategy(stratum, tier):
             v=st.just(v),
             D=st.just(D),
             N=st.just(N),
-            L=gens.st_L(),
+            L=gens.st_L(extreme=True),
             kw=kw_strategy(v, D),
             stiff=st.one_of(
                 st.fixed_dictionaries(dict(Z=gens.log_floats(1e-3, 1e7))),
